@@ -25,6 +25,9 @@ def make_repo(pr, target, state, pat_name="ver.txt", other="notes.txt", extra_di
     pr.write_text(other, "notes\n")
     pr.write_text("spare.txt", "spare\n")
     pr.write_text("a_first.txt", "first\n")
+    if isinstance(extra_dirty, str) and extra_dirty.startswith("many"):
+        for i in range(int(extra_dirty[4:])):
+            pr.write_text("a_many_%02d.txt" % i, "x\n")
     pr.git_init()
     fname = {"pattern": pat_name, "config": "bumpver.toml", "unrelated": other}[target]
     fresh = state in ("added", "added_mod", "untracked", "renamed_to")
@@ -64,6 +67,10 @@ def make_repo(pr, target, state, pat_name="ver.txt", other="notes.txt", extra_di
         open(pr.path("a_first.txt"), "a").write("# edit\n")
     elif extra_dirty == "untracked":
         pr.write_text("a_aaa_untracked.txt", "x\n")
+    elif isinstance(extra_dirty, str) and extra_dirty.startswith("many"):
+        # MANY other dirty tracked files, all listed before the target by `git status`
+        for i in range(int(extra_dirty[4:])):
+            open(pr.path("a_many_%02d.txt" % i), "a").write("# edit\n")
     return fname
 
 
@@ -104,7 +111,7 @@ def e2e(target, state, allow, pat_name="ver.txt", extra_dirty=None, key=None):
         status_after = pr.git("status", "--porcelain")
     case.update(exit=code, exc=exc, committed=committed)
     want_abort = expected_abort(target, state, allow)
-    if extra_dirty in ("staged", "unstaged") and not allow:
+    if (extra_dirty in ("staged", "unstaged") or str(extra_dirty).startswith("many")) and not allow:
         want_abort = True           # another tracked file is dirty
     file_missing = state in ("del_unstaged", "del_staged") and target in ("pattern", "config")
     verdict = None
@@ -116,7 +123,7 @@ def e2e(target, state, allow, pat_name="ver.txt", extra_dirty=None, key=None):
     else:
         if code != 0:
             verdict = "update aborted (exit %s %s) although only an unrelated file is %s (allow_dirty=%s)" % (code, exc, state, allow)
-        elif sorted(committed) != sorted(["bumpver.toml", pat_name]) and state in ("clean", "mod_unstaged", "untracked", "del_unstaged") and extra_dirty != "staged":
+        elif sorted(committed) != sorted(["bumpver.toml", pat_name]) and state in ("clean", "mod_unstaged", "untracked", "del_unstaged") and extra_dirty != "staged" and not str(extra_dirty).startswith("many"):
             verdict = "bump commit contains %r, expected only the configured files" % (committed,)
     return case, verdict, status
 
@@ -163,6 +170,15 @@ def run(chk, driver, tier):
     # a SECOND dirty file that sorts before the target in the porcelain listing
     for target, state, allow, extra in itertools.product(["pattern", "config", "unrelated"], ["clean", "mod_unstaged", "mod_staged", "del_unstaged", "untracked"],
                                                         [False, True], ["staged", "unstaged", "untracked"]):
+        case, verdict, status = e2e(target, state, allow, extra_dirty=extra)
+        if case is None:
+            continue
+        chk.count("extra_dirty:" + extra)
+        chk.oracle_case(case, verdict)
+        ops.append({"op": "dirty", "status": status, "files": ["bumpver.toml", "ver.txt"], "allow": allow})
+    # MANY dirty files (9, 10, 11, 25) listed before the target: how many there are must not matter
+    for target, state, allow, extra in itertools.product(["pattern", "config", "unrelated"], ["clean", "mod_unstaged", "mod_staged", "untracked"],
+                                                        [False, True], ["many9", "many10", "many11", "many25"]):
         case, verdict, status = e2e(target, state, allow, extra_dirty=extra)
         if case is None:
             continue
